@@ -39,6 +39,26 @@ func init() {
 			f.Adversarial = r.Intn(3) == 0
 			t := genTree(r, f)
 			addGenerators(r, t)
+			if r.Intn(4) == 0 {
+				// a late transformer (replacement) writes an identity field: an empty name, a name already taken, or a fresh one
+				top := t.Layers[len(t.Layers)-1]
+				cm := func(name string, data Obj) Obj {
+					o := Obj{"apiVersion": "v1", "kind": "ConfigMap", "metadata": Obj{"name": name}}
+					if data != nil {
+						o["data"] = data
+					}
+					return o
+				}
+				top.ResF = append(top.ResF, "ident.yaml")
+				top.Docs["ident.yaml"] = []Obj{cm("idsrc", Obj{"empty": "", "taken": "idtgt2", "fresh": "idnew"}), cm("idtgt", nil), cm("idtgt2", nil)}
+				top.Kust["replacements"] = []interface{}{Obj{
+					"source":  Obj{"kind": "ConfigMap", "name": "idsrc", "fieldPath": "data." + pickS(r, []string{"empty", "taken", "fresh"})},
+					"targets": []interface{}{Obj{"select": Obj{"kind": "ConfigMap", "name": "idtgt"}, "fieldPaths": []interface{}{"metadata.name"}}},
+				}}
+				if r.Intn(2) == 0 {
+					top.Kust["sortOptions"] = Obj{"order": "fifo"}
+				}
+			}
 			fs := filesys.MakeFsInMemory()
 			if err := t.Write(fs, "/w"); err != nil {
 				panic(err)
